@@ -1,6 +1,7 @@
 package main
 
 import (
+	"fmt"
 	"strings"
 )
 
@@ -91,5 +92,81 @@ func runC04(r *Runner, g *Gen, tier string) string {
 			r.Do(codecOp("dec", cfg, t, "", A(hx(m)), A("zero")), true, "dec.mutated")
 		}
 	}
-	return "every byte string up to the tier's length over a 15-byte alphabet (tags of known/unknown indexes and all wire types, 0x00, 0x7f, 0x80, 0xff) decoded into 22 target types covering every reader (exhaustive); plus truncations, bit flips, huge-varint substitutions and rotations of valid encodings of generated types; compared: outcome class ok/err/panic and the decoded value on ok; oracle: any panic, fatal crash or hang of the implementation; non-trivial = non-empty input"
+	// 3. long inputs: thousands of elements / entries in every repeating wire form (count-prefixed,
+	// packed, fixed, protobuf-style repeated tags read by either configuration, map entries):
+	// allocation must stay a fixed multiple of the input length however long the input is
+	nBig := scale(tier, 6000, 20000)
+	inner := Struct(F("A", "1", B("int")), F("B", "2", B("str")))
+	bigTypes := []*TyDef{
+		Struct(F("S", "1", Slice(B("str")))),
+		Struct(F("S", "1", Slice(inner))),
+		Struct(F("S", "1", Slice(Ptr(inner)))),
+		Struct(F("S", "1", Slice(B("int")))),
+		Struct(F("S", "1", Slice(B("f64")))),
+		Struct(F("S", "1", Slice(Slice(B("uint8"))))),
+		Struct(F("M", "1", Map(B("int"), B("str")))),
+		Struct(&FieldDef{Name: "M", Exported: true, Plenc: "1,proto", T: Map(B("int"), B("int"))}),
+		Struct(&FieldDef{Name: "S", Exported: true, Plenc: "1,proto", T: Slice(B("str"))}),
+		Slice(B("str")), Map(B("str"), B("int")),
+	}
+	for _, t := range bigTypes {
+		v := bigValue(t, nBig)
+		for _, ecfg := range []string{"00", "01"} {
+			res := execOp(codecOp("enc", ecfg, t, "", v.Sexp()))
+			if !strings.HasPrefix(res, "ok x") {
+				continue
+			}
+			for _, dcfg := range []string{"00", "01"} {
+				if t.K != "struct" && dcfg != ecfg {
+					continue // the repeated form outside a struct field is not self-delimiting (F02)
+				}
+				r.Do(codecOp("dec", dcfg, t, "", A(res[3:]), A("zero")), true, "dec.long")
+			}
+		}
+	}
+	return "every byte string up to the tier's length over a 15-byte alphabet (tags of known/unknown indexes and all wire types, 0x00, 0x7f, 0x80, 0xff) decoded into 22 target types covering every reader (exhaustive); plus truncations, bit flips, huge-varint substitutions and rotations of valid encodings of generated types; compared: outcome class ok/err/panic and the decoded value on ok; plus valid encodings with thousands of elements / entries in every repeating wire form; oracle: any panic, fatal crash or hang of the implementation, and bytes allocated during the call above a type-dependent multiple of the input length; non-trivial = non-empty input"
+}
+
+// bigValue: a value of t whose slices and maps hold n small elements.
+func bigValue(t *TyDef, n int) *Val {
+	switch t.K {
+	case "struct":
+		out := &Val{K: "r"}
+		for _, f := range t.Fields {
+			if fieldEncoded(f) {
+				out.L = append(out.L, bigValue(f.T, n))
+			}
+		}
+		return out
+	case "slice":
+		if t.isBytes() {
+			return &Val{K: "y", Data: []byte{1}}
+		}
+		out := &Val{K: "l"}
+		for i := 0; i < n; i++ {
+			out.L = append(out.L, bigValue(t.Elem, 1))
+		}
+		return out
+	case "map":
+		out := &Val{K: "m"}
+		for i := 0; i < n; i++ {
+			var k *Val
+			if t.Key.K == "str" {
+				k = &Val{K: "s", Data: []byte(fmt.Sprintf("k%d", i))}
+			} else {
+				k = &Val{K: "i", I: int64(i + 1)}
+			}
+			out.M = append(out.M, [2]*Val{k, bigValue(t.Elem, 1)})
+		}
+		return out
+	case "ptr":
+		return &Val{K: "p", P: bigValue(t.Elem, 1)}
+	case "str":
+		return &Val{K: "s", Data: []byte("x")}
+	case "int":
+		return &Val{K: "i", I: 3}
+	case "f64":
+		return &Val{K: "f64", U: 0x3ff0000000000000}
+	}
+	return zeroVal(t)
 }
